@@ -141,25 +141,29 @@ type RelD struct {
 	JOwner string
 	JTgt   string
 	Elem   reflect.Type
+	// has-kinds: the Go field of the target that holds the foreign key (always *int64), and for
+	// polymorphic relations the field holding the owner type
+	FKField   string
+	TypeField string
 }
 
 var rels = map[string]RelD{
-	"One":      {Name: "One", Kind: "KHasOne", Table: "ones", FK: "own_id", Elem: reflect.TypeOf(One{})},
-	"Many":     {Name: "Many", Kind: "KHasMany", Table: "manies", FK: "own_id", Elem: reflect.TypeOf(Many{})},
-	"Notes":    {Name: "Notes", Kind: "KHasMany", Table: "notes", FK: "owner_id", Poly: true, Elem: reflect.TypeOf(Note{})},
-	"Badge":    {Name: "Badge", Kind: "KHasOne", Table: "badges", FK: "owner_id", Poly: true, Elem: reflect.TypeOf(Badge{})},
+	"One":      {Name: "One", Kind: "KHasOne", Table: "ones", FK: "own_id", Elem: reflect.TypeOf(One{}), FKField: "OwnID"},
+	"Many":     {Name: "Many", Kind: "KHasMany", Table: "manies", FK: "own_id", Elem: reflect.TypeOf(Many{}), FKField: "OwnID"},
+	"Notes":    {Name: "Notes", Kind: "KHasMany", Table: "notes", FK: "owner_id", Poly: true, Elem: reflect.TypeOf(Note{}), FKField: "OwnerID", TypeField: "OwnerType"},
+	"Badge":    {Name: "Badge", Kind: "KHasOne", Table: "badges", FK: "owner_id", Poly: true, Elem: reflect.TypeOf(Badge{}), FKField: "OwnerID", TypeField: "OwnerType"},
 	"Target":   {Name: "Target", Kind: "KBelongs", Table: "tgts", FK: "target_id", Elem: reflect.TypeOf(Tgt{})},
 	"Tags":     {Name: "Tags", Kind: "KM2M", Table: "tags", JTable: "own_tags", JOwner: "own_id", JTgt: "tag_id", Elem: reflect.TypeOf(Tag{})},
 	"PTags":    {Name: "PTags", Kind: "KM2M", Table: "p_tags", JTable: "own_ptags", JOwner: "own_id", JTgt: "p_tag_id", Elem: reflect.TypeOf(PTag{})},
-	"OneV":     {Name: "OneV", Kind: "KHasOne", Table: "one_vs", FK: "own_id", Elem: reflect.TypeOf(OneV{})},
+	"OneV":     {Name: "OneV", Kind: "KHasOne", Table: "one_vs", FK: "own_id", Elem: reflect.TypeOf(OneV{}), FKField: "OwnID"},
 	"TargetV":  {Name: "TargetV", Kind: "KBelongs", Table: "tgt_vs", FK: "target_v_id", Elem: reflect.TypeOf(TgtV{})},
 	"Friends":  {Name: "Friends", Kind: "KM2M", Table: "owns", JTable: "own_friends", JOwner: "own_id", JTgt: "friend_id", Elem: reflect.TypeOf(Own{})},
 	"XTags":    {Name: "XTags", Kind: "KM2M", Table: "x_tags", JTable: "own_xtags", JOwner: "owner_ref", JTgt: "tag_ref", Elem: reflect.TypeOf(XTag{})},
-	"CKids":    {Name: "CKids", Kind: "KHasMany", Table: "c_kids", FK: "own_id", CK: true, Elem: reflect.TypeOf(CKid{})},
+	"CKids":    {Name: "CKids", Kind: "KHasMany", Table: "c_kids", FK: "own_id", CK: true, Elem: reflect.TypeOf(CKid{}), FKField: "OwnID"},
 	"CTags":    {Name: "CTags", Kind: "KM2M", Table: "c_tags", JTable: "own_ctags", JOwner: "own_id", JTgt: "c_tag", CK: true, Elem: reflect.TypeOf(CTag{})},
-	"Stickers": {Name: "Stickers", Kind: "KHasMany", Table: "stickers", FK: "o_id", Poly: true, TypeC: "kind", Elem: reflect.TypeOf(Sticker{})},
-	"Cards":    {Name: "Cards", Kind: "KHasMany", Table: "cards", FK: "owner_number", Ref: true, Elem: reflect.TypeOf(Card{})},
-	"Pass":     {Name: "Pass", Kind: "KHasOne", Table: "passes", FK: "owner_number", Ref: true, Elem: reflect.TypeOf(Pass{})},
+	"Stickers": {Name: "Stickers", Kind: "KHasMany", Table: "stickers", FK: "o_id", Poly: true, TypeC: "kind", Elem: reflect.TypeOf(Sticker{}), FKField: "OID", TypeField: "Kind"},
+	"Cards":    {Name: "Cards", Kind: "KHasMany", Table: "cards", FK: "owner_number", Ref: true, Elem: reflect.TypeOf(Card{}), FKField: "OwnerNumber"},
+	"Pass":     {Name: "Pass", Kind: "KHasOne", Table: "passes", FK: "owner_number", Ref: true, Elem: reflect.TypeOf(Pass{}), FKField: "OwnerNumber"},
 }
 var relNames = []string{"One", "Many", "Notes", "Notes", "Badge", "Target", "Tags", "PTags", "OneV", "TargetV", "Friends", "XTags", "Stickers", "CKids", "CKids", "CTags", "CTags", "Cards", "Cards", "Pass"}
 
@@ -268,6 +272,19 @@ type OpIn struct {
 	Array    string    `json:"array,omitempty"`    // the targets are handed over as a Go ARRAY: "values" = &[N]T, "ptrs" = [N]*T
 	Alias    bool      `json:"alias,omitempty"`    // delete: the argument IS the record held by the relation field of the first owner (&owners[0].Rel, owners[0].Rel, &owners[0].Rel[0])
 	AsSlice  bool      `json:"as_slice,omitempty"` // struct handle / Delete: pass the targets as ONE slice argument
+	// Append / Replace: what the foreign-key FIELD of each passed object holds in memory when the call is
+	// made (same shape as Vals; has one / has many): 0 = unset (a fresh struct), -1 = the object is LOADED
+	// from the database (db.First: it carries whatever key its row has), k > 0 = the key of owner k is
+	// written into the field (k > 1000: owner k-1000 of another polymorphic owner type)
+	FKMem [][]int64 `json:"fk_mem,omitempty"`
+	// Append / Replace: arguments that ARE elements of the owner's own in-memory relation field (same
+	// shape as Vals): p >= 0 = the element at position p (modulo the length of the field) of that owner's
+	// field, -1 = an object of its own.  Used only when every owner concerned holds at least one
+	// element at that moment; Vals is then overwritten by the ids found there.
+	Refs    [][]int `json:"refs,omitempty"`
+	RefMode string  `json:"ref_mode,omitempty"` // "elem": &owner.Rel[p] / the held pointer; "sub": the sub-slice owner.Rel[p:p+1]
+	// output only: what the foreign-key field of each passed object held when the call was made
+	FKBefore [][]int64 `json:"fk_before,omitempty"`
 }
 
 type Link struct {
@@ -285,7 +302,8 @@ type Input struct {
 	Owners      []int64 `json:"owners"`                 // handle
 	Outside     []int64 `json:"outside"`                // other owner rows
 	Targets     []int64 `json:"targets"`                // existing rows of the target table
-	Links       []Link  `json:"links"`                  // existing links of OUTSIDE owners (has-kinds: target's fk; belongs: owner's fk; m2m: join row)
+	Links       []Link  `json:"links"`                  // existing links: of OUTSIDE owners and (preload) of owners of the handle (has-kinds: target's fk; belongs: owner's fk; m2m: join row)
+	Preload     bool    `json:"preload,omitempty"`      // the owners of the handle START WITH links (listed in Links) and are loaded with Preload(rel): their in-memory fields hold the linked records
 	Ops         []OpIn  `json:"ops"`
 }
 
@@ -297,6 +315,7 @@ type Snap struct {
 	Count int64      `json:"count"`
 	Find  []int64    `json:"find"`
 	Mem   [][]int64  `json:"mem"`
+	FKs   [][]int64  `json:"fks"` // per owner, per element held in memory: its foreign-key field as an owner id, 0 = unset / no such field
 	Other [][2]int64 `json:"other"` // links of the same tables that do not belong to the handle
 	Err   string     `json:"err,omitempty"`
 }
@@ -357,6 +376,16 @@ func (e *Env) ints(q string, args ...interface{}) []int64 {
 	}
 	return out
 }
+
+type sortBy struct {
+	n    int
+	less func(a, b int) bool
+	swap func(a, b int)
+}
+
+func (s sortBy) Len() int           { return s.n }
+func (s sortBy) Less(a, b int) bool { return s.less(a, b) }
+func (s sortBy) Swap(a, b int)      { s.swap(a, b) }
 
 func sorted(xs []int64) []int64 {
 	out := append([]int64{}, xs...)
@@ -451,6 +480,70 @@ func fieldIDs(owner reflect.Value, name string) []int64 {
 	case reflect.Slice:
 		for i := 0; i < fv.Len(); i++ {
 			out = append(out, getID(fv.Index(i)))
+		}
+	}
+	return out
+}
+
+// fkOf: what the foreign-key field of a target object holds, as an owner id (0 = unset, or the
+// relation kind keeps no key on the target); setFK writes the key of owner k into it.
+func (e *Env) fkOf(r RelD, v reflect.Value) int64 {
+	if r.FKField == "" {
+		return 0
+	}
+	v = reflect.Indirect(v)
+	f := v.FieldByName(r.FKField)
+	if f.IsNil() {
+		return 0
+	}
+	o := e.ownerOf(r, f.Elem().Int())
+	if r.Poly && v.FieldByName(r.TypeField).String() != "xp" {
+		o += polyOther
+	}
+	return o
+}
+func (e *Env) setFK(r RelD, v reflect.Value, k int64) {
+	if r.FKField == "" {
+		return
+	}
+	v = reflect.Indirect(v)
+	ty := "xp"
+	if r.Poly && k > polyOther {
+		k, ty = k-polyOther, "other"
+	}
+	key := e.stored(r, k)
+	v.FieldByName(r.FKField).Set(reflect.ValueOf(&key))
+	if r.Poly {
+		v.FieldByName(r.TypeField).SetString(ty)
+	}
+}
+
+// load: the object is read from the database through gorm (db.First by primary key)
+func (e *Env) load(r RelD, p reflect.Value, id int64) {
+	tx := e.db.Session(&gorm.Session{NewDB: true})
+	if r.CK {
+		ka, kb := ckKey(id)
+		tx.Where("a = ? AND b = ?", ka, kb).First(p.Interface())
+		return
+	}
+	tx.First(p.Interface(), id)
+}
+
+func (e *Env) fieldFKs(r RelD, owner reflect.Value) []int64 {
+	fv := owner.FieldByName(r.Name)
+	out := []int64{}
+	switch fv.Kind() {
+	case reflect.Ptr:
+		if !fv.IsNil() && getID(fv) != 0 {
+			out = append(out, e.fkOf(r, fv))
+		}
+	case reflect.Struct:
+		if getID(fv) != 0 {
+			out = append(out, e.fkOf(r, fv))
+		}
+	case reflect.Slice:
+		for i := 0; i < fv.Len(); i++ {
+			out = append(out, e.fkOf(r, fv.Index(i)))
 		}
 	}
 	return out
@@ -571,7 +664,17 @@ func (e *Env) run(in Input) Result {
 	// the handle: owner objects that receive every operation
 	owners := make([]Own, len(in.Owners))
 	for i, o := range in.Owners {
-		lib.Must(db.First(&owners[i], o).Error)
+		if in.Preload {
+			lib.Must(db.Preload(r.Name).First(&owners[i], o).Error)
+			// (the preloaded records are put in the order of their ids: the input-only signature of the
+			// known many2many shape resolves references into the field by position)
+			if fv := reflect.ValueOf(&owners[i]).Elem().FieldByName(r.Name); fv.Kind() == reflect.Slice {
+				sw := reflect.Swapper(fv.Interface())
+				sort.Sort(sortBy{fv.Len(), func(a, b int) bool { return getID(fv.Index(a)) < getID(fv.Index(b)) }, sw})
+			}
+		} else {
+			lib.Must(db.First(&owners[i], o).Error)
+		}
 	}
 	model := func() interface{} {
 		if in.Single {
@@ -606,6 +709,7 @@ func (e *Env) run(in Input) Result {
 			s.Links = append(s.Links, l)
 			all = append(all, l...)
 			s.Mem = append(s.Mem, fieldIDs(reflect.ValueOf(owners[i]), r.Name))
+			s.FKs = append(s.FKs, e.fieldFKs(r, reflect.ValueOf(owners[i])))
 		}
 		s.Tgts = e.ints("SELECT " + r.idExpr() + " FROM " + r.Table + " ORDER BY 1")
 		s.Other = e.othersOf(r, in.Owners)
@@ -631,19 +735,95 @@ func (e *Env) run(in Input) Result {
 	for _, op0 := range in.Ops {
 		op := op0
 		op.Del = append([]int64{}, op0.Del...)
+		if op0.Refs != nil {
+			op.Refs = make([][]int, len(op0.Refs))
+			for i := range op0.Refs {
+				op.Refs[i] = append([]int{}, op0.Refs[i]...)
+			}
+		}
+		op.FKBefore = nil
 		assoc := handle()
 		if op.Unscoped {
 			assoc = assoc.Unscoped()
 		}
 		// build the argument objects
-		var objs [][]reflect.Value
+		single := r.Kind == "KHasOne" || r.Kind == "KBelongs"
+		type item struct {
+			obj      reflect.Value // pointer to the target object (for a reference: pointer to / held pointer of the field's element)
+			ref      int           // >= 0: the argument IS the element at this position of the owner's own relation field
+			idBefore int64
+		}
+		var items [][]item
+		fieldOf := func(oi int) reflect.Value {
+			return reflect.ValueOf(&owners[oi]).Elem().FieldByName(r.Name)
+		}
+		// held(oi, p): pointer to the p-th element the owner's field holds (invalid when there is none)
+		heldLen := func(oi int) int {
+			fv := fieldOf(oi)
+			switch fv.Kind() {
+			case reflect.Slice:
+				return fv.Len()
+			case reflect.Ptr:
+				if !fv.IsNil() && getID(fv) != 0 {
+					return 1
+				}
+			case reflect.Struct:
+				if getID(fv) != 0 {
+					return 1
+				}
+			}
+			return 0
+		}
+		held := func(oi, p int) reflect.Value {
+			fv := fieldOf(oi)
+			switch fv.Kind() {
+			case reflect.Slice:
+				el := fv.Index(p)
+				if el.Kind() != reflect.Ptr {
+					el = el.Addr()
+				}
+				return el
+			case reflect.Struct:
+				return fv.Addr()
+			}
+			return fv
+		}
+		// references into the owners' own fields are used only when every owner concerned holds something
+		useRefs := op.Refs != nil && (op.Op == "append" || op.Op == "replace") && !op.None
+		if useRefs {
+			anyRef := false
+			for oi, refs := range op.Refs {
+				for _, p := range refs {
+					if p >= 0 {
+						anyRef = true
+						if oi >= len(owners) || heldLen(oi) == 0 {
+							useRefs = false
+						}
+					}
+				}
+			}
+			useRefs = useRefs && anyRef
+		}
+		if !useRefs {
+			op.Refs, op.RefMode = nil, ""
+		} else {
+			op.Array = ""
+		}
 		mkArgs := func() []interface{} {
 			var args []interface{}
-			for _, v := range op.Vals {
+			for vi, v := range op.Vals {
 				sl := reflect.MakeSlice(reflect.SliceOf(reflect.PtrTo(r.Elem)), 0, len(v))
-				var os []reflect.Value
+				var os []item
 				same := map[int64]reflect.Value{}
-				for _, id := range v {
+				for ti, id := range v {
+					if useRefs && vi < len(op.Refs) && ti < len(op.Refs[vi]) && op.Refs[vi][ti] >= 0 {
+						pos := op.Refs[vi][ti] % heldLen(vi)
+						op.Refs[vi][ti] = pos
+						h := held(vi, pos)
+						os = append(os, item{obj: h, ref: pos, idBefore: getID(h)})
+						sl = reflect.Append(sl, h)
+						continue
+					}
 					p, ok := same[id]
 					if !ok || !op.SamePtr || id == 0 {
 						p = reflect.New(r.Elem)
@@ -653,46 +833,70 @@ func (e *Env) run(in Input) Result {
 						}
 						setID(p, id)
 						p.Elem().FieldByName("Name").SetString(fmt.Sprint("v", id))
+						if vi < len(op.FKMem) && ti < len(op.FKMem[vi]) {
+							switch k := op.FKMem[vi][ti]; {
+							case k == -1 && id != 0:
+								e.load(r, p, id)
+							case k > 0:
+								e.setFK(r, p, k)
+							}
+						}
 						same[id] = p
 					}
 					sl = reflect.Append(sl, p)
-					os = append(os, p)
+					os = append(os, item{obj: p, ref: -1})
 				}
 				if op.Array != "" && len(os) > 0 {
 					// a Go array as the argument: &[N]T (value elements) or [N]*T (pointer elements)
-					single := r.Kind == "KHasOne" || r.Kind == "KBelongs"
 					if op.Array == "values" || single {
 						arr := reflect.New(reflect.ArrayOf(len(os), r.Elem)).Elem()
 						for i := range os {
-							arr.Index(i).Set(os[i].Elem())
-							os[i] = arr.Index(i).Addr() // ids of new records are written back here
+							arr.Index(i).Set(os[i].obj.Elem())
+							os[i].obj = arr.Index(i).Addr() // ids of new records are written back here
 						}
 						args = append(args, arr.Addr().Interface())
 					} else {
 						arr := reflect.New(reflect.ArrayOf(len(os), reflect.PtrTo(r.Elem))).Elem()
 						for i := range os {
-							arr.Index(i).Set(os[i])
+							arr.Index(i).Set(os[i].obj)
 						}
 						args = append(args, arr.Interface())
 					}
-					objs = append(objs, os)
+					items = append(items, os)
 					continue
 				}
-				objs = append(objs, os)
+				items = append(items, os)
+				sub := func(it item) interface{} { // the one-element sub-slice owner.Rel[p:p+1]
+					return fieldOf(vi).Slice(it.ref, it.ref+1).Interface()
+				}
 				switch {
-				case r.Kind == "KHasOne" || r.Kind == "KBelongs":
+				case single:
 					if len(os) == 1 && !op.AsSlice {
-						args = append(args, os[0].Interface())
+						args = append(args, os[0].obj.Interface())
 					} else {
 						args = append(args, sl.Interface())
 					}
-				case in.Single && !op.AsSlice:
+				case in.Single && (!op.AsSlice || (useRefs && op.RefMode == "sub")):
 					for _, o := range os {
-						args = append(args, o.Interface())
+						if o.ref >= 0 && op.RefMode == "sub" {
+							args = append(args, sub(o))
+						} else {
+							args = append(args, o.obj.Interface())
+						}
 					}
+				case len(os) == 1 && os[0].ref >= 0 && op.RefMode == "sub":
+					args = append(args, sub(os[0]))
 				default:
 					args = append(args, sl.Interface())
 				}
+			}
+			// what the key fields hold when the call is made
+			for _, os := range items {
+				fks := []int64{}
+				for _, o := range os {
+					fks = append(fks, e.fkOf(r, o.obj))
+				}
+				op.FKBefore = append(op.FKBefore, fks)
 			}
 			return args
 		}
@@ -777,13 +981,17 @@ func (e *Env) run(in Input) Result {
 		case "clear":
 			err = assoc.Clear()
 		}
-		ex := OpIn{Op: op.Op, Unscoped: op.Unscoped, Del: op.Del, None: op.None, SamePtr: op.SamePtr, AsSlice: op.AsSlice, Array: op.Array, Alias: op.Alias}
-		for vi, os := range objs {
+		ex := OpIn{Op: op.Op, Unscoped: op.Unscoped, Del: op.Del, None: op.None, SamePtr: op.SamePtr, AsSlice: op.AsSlice, Array: op.Array, Alias: op.Alias,
+			Refs: op.Refs, RefMode: op.RefMode, FKBefore: op.FKBefore}
+		for vi, os := range items {
 			ids := []int64{}
 			for oi, o := range os {
-				id := getID(o)
+				id := o.idBefore
+				if o.ref < 0 {
+					id = getID(o.obj)
+				}
 				ids = append(ids, id)
-				if op.Vals[vi][oi] == 0 && id != 0 {
+				if o.ref < 0 && op.Vals[vi][oi] == 0 && id != 0 {
 					created = append(created, id)
 				}
 			}
@@ -804,25 +1012,53 @@ func gSnap(s Snap) string {
 		e = 1
 	}
 	other := lib.ListOf(s.Other, func(p [2]int64) string { return lib.Pair(lib.Z(p[0]), lib.Z(p[1])) })
-	return lib.App("mk_snap", gLists(s.Links), lib.ZList(s.Tgts), lib.Z(s.Count), lib.ZList(s.Find), gLists(s.Mem), other, lib.Z(e))
+	return lib.App("mk_snap", gLists(s.Links), lib.ZList(s.Tgts), lib.Z(s.Count), lib.ZList(s.Find), gLists(s.Mem),
+		lib.ListOf(s.FKs, func(l []int64) string { return lib.ListOf(l, gOptZ) }), other, lib.Z(e))
+}
+func gOptZ(v int64) string {
+	if v == 0 {
+		return "None"
+	}
+	return "(Some " + lib.Z(v) + ")"
+}
+
+// gArgs: the objects passed, per owner: AObj id (key its field held), or ARef position
+func gArgs(o OpIn) string {
+	var per []string
+	for vi, v := range o.Vals {
+		var as []string
+		for ti, id := range v {
+			if vi < len(o.Refs) && ti < len(o.Refs[vi]) && o.Refs[vi][ti] >= 0 {
+				as = append(as, "ARef "+lib.Nat(o.Refs[vi][ti]))
+				continue
+			}
+			fk := int64(0)
+			if vi < len(o.FKBefore) && ti < len(o.FKBefore[vi]) {
+				fk = o.FKBefore[vi][ti]
+			}
+			as = append(as, "AObj "+lib.Z(id)+" "+gOptZ(fk))
+		}
+		per = append(per, lib.List(as))
+	}
+	return lib.List(per)
 }
 func gOp(o OpIn) string {
 	var t string
 	switch o.Op {
 	case "append":
-		t = lib.App("OAppend", gLists(o.Vals))
+		t = lib.App("EAppend", gArgs(o))
 		if o.None {
-			t = "OAppendNone"
+			t = "EAppendNone"
 		}
 	case "replace":
-		t = lib.App("OReplace", gLists(o.Vals))
+		t = lib.App("EReplace", gArgs(o))
 		if o.None { // Clear() IS Replace()
-			t = "OClear"
+			t = "EClear"
 		}
 	case "delete":
-		t = lib.App("ODelete", lib.ZList(o.Del))
+		t = lib.App("EDelete", lib.ZList(o.Del))
 	default:
-		t = "OClear"
+		t = "EClear"
 	}
 	return lib.Pair(lib.Bool(o.Unscoped), t)
 }
@@ -836,13 +1072,18 @@ func gOptPairs(xs [][2]int64) string {
 }
 func term(in Input, res Result) string {
 	r := rels[in.Rel]
-	mem := make([][]int64, len(in.Owners))
+	// the in-memory fields as loaded (empty, or the preloaded links): (id, key field) per element
+	mem := make([]string, len(in.Owners))
 	for i := range mem {
-		mem[i] = []int64{}
+		var es []string
+		for j, id := range res.Snap0.Mem[i] {
+			es = append(es, lib.Pair(lib.Z(id), gOptZ(res.Snap0.FKs[i][j])))
+		}
+		mem[i] = lib.List(es)
 	}
-	init := lib.App("mk_st", gOptPairs(res.Init.Rows),
+	init := lib.App("mk_est", gOptPairs(res.Init.Rows),
 		lib.ListOf(res.Init.Joins, func(p [2]int64) string { return lib.Pair(lib.Z(p[0]), lib.Z(p[1])) }),
-		lib.ZList(res.Init.Tgt), gLists(mem))
+		lib.ZList(res.Init.Tgt), lib.List(mem))
 	return lib.App("mk_case", r.Kind, lib.ZList(in.Owners), init, lib.ListOf(res.Ops, gOp), gSnap(res.Snap0), lib.ListOf(res.Snaps, gSnap))
 }
 
@@ -891,6 +1132,51 @@ func genInput(r *lib.Rng, maxOps int, edge bool) Input {
 			}
 		}
 	}
+	// one history in three: the owners of the handle START WITH links and are loaded with Preload(rel)
+	if r.Chance(1, 3) {
+		in.Preload = true
+		usedOne := map[int64]bool{}
+		for oi, o := range in.Owners {
+			switch rel.Kind {
+			case "KBelongs":
+				if r.Chance(2, 3) {
+					t := lib.Pick(r, in.Targets)
+					if oi > 0 && r.Chance(1, 2) && len(in.Links) > 0 && in.Links[len(in.Links)-1].Owner == in.Owners[oi-1] {
+						t = in.Links[len(in.Links)-1].Target // shared with the previous owner
+					}
+					in.Links = append(in.Links, Link{Owner: o, Target: t})
+				}
+			case "KHasOne":
+				if t := lib.Pick(r, in.Targets); r.Chance(2, 3) && !usedOne[t] {
+					usedOne[t] = true
+					in.Links = append(in.Links, Link{Owner: o, Target: t})
+				}
+			case "KHasMany":
+				for _, t := range in.Targets {
+					if r.Chance(1, 3) && !usedOne[t] {
+						usedOne[t] = true
+						in.Links = append(in.Links, Link{Owner: o, Target: t})
+					}
+				}
+			default:
+				for _, t := range in.Targets {
+					if r.Chance(1, 3) {
+						in.Links = append(in.Links, Link{Owner: o, Target: t})
+					}
+				}
+			}
+		}
+		if rel.Kind == "KHasOne" || rel.Kind == "KHasMany" {
+			// the links given to the handle win over an outside owner's link to the same target
+			var ls []Link
+			for _, l := range in.Links {
+				if !(usedOne[l.Target] && !containsI(in.Owners, l.Owner)) {
+					ls = append(ls, l)
+				}
+			}
+			in.Links = ls
+		}
+	}
 	// has-kinds: a target has one fk: keep the last link per target
 	if rel.Kind == "KHasOne" || rel.Kind == "KHasMany" {
 		seen := map[int64]bool{}
@@ -906,6 +1192,15 @@ func genInput(r *lib.Rng, maxOps int, edge bool) Input {
 	// targets already given to some owner of the handle during this history (has-kinds: a target is
 	// never given to two different owners of the handle - DESIGN 8.0 / props.d domain)
 	given := map[int64]int{}
+	if rel.Kind == "KHasOne" || rel.Kind == "KHasMany" {
+		for _, l := range in.Links {
+			for oi, o := range in.Owners {
+				if l.Owner == o && !l.Other {
+					given[l.Target] = oi
+				}
+			}
+		}
+	}
 	pickFor := func(owner int, used map[int64]bool) int64 {
 		for tries := 0; tries < 20; tries++ {
 			var t int64
@@ -985,6 +1280,47 @@ func genInput(r *lib.Rng, maxOps int, edge bool) Input {
 			if r.Chance(1, 5) {
 				op.Array = lib.Pick(r, []string{"values", "ptrs"})
 			}
+			// what the foreign-key field of a passed object holds in memory: unset, loaded from the
+			// database, or some owner's key written into it (an owner of the handle, an outside owner,
+			// nobody's key; polymorphic: also an owner of the other type)
+			if r.Chance(1, 2) {
+				keys := append(append([]int64{99}, in.Owners...), in.Outside...)
+				for _, v := range op.Vals {
+					fks := make([]int64, len(v))
+					for j := range v {
+						switch x := r.Intn(10); {
+						case x < 3:
+							fks[j] = -1
+						case x < 7 && rel.FKField != "":
+							fks[j] = lib.Pick(r, keys)
+							if rel.Poly && r.Chance(1, 4) {
+								fks[j] += polyOther
+							}
+						}
+					}
+					op.FKMem = append(op.FKMem, fks)
+				}
+			}
+			// arguments that ARE elements of the owner's own relation field, in any order
+			if (i > 0 || in.Preload) && r.Chance(1, 4) {
+				op.RefMode = lib.Pick(r, []string{"elem", "sub"})
+				desc := r.Bool()
+				for _, v := range op.Vals {
+					refs := make([]int, len(v))
+					for j := range v {
+						refs[j] = -1
+						if singleValued {
+							refs[j] = 0
+						} else if r.Chance(3, 4) {
+							refs[j] = r.Intn(4)
+							if desc {
+								refs[j] = len(v) - 1 - j
+							}
+						}
+					}
+					op.Refs = append(op.Refs, refs)
+				}
+			}
 		case "delete":
 			k := r.Range(1, 3)
 			if edge && r.Chance(1, 4) {
@@ -1051,15 +1387,47 @@ func sigOther(in Input) string {
 	}
 	fresh := int64(-1000)
 	var created []int64
-	var mem0 []int64
+	// the ordered in-memory field of every owner (what an alias Delete / a reference argument names);
+	// preloaded links come in the order of the target ids
+	mems := make([][]int64, len(in.Owners))
+	if in.Preload {
+		for i, o := range in.Owners {
+			for _, l := range in.Links {
+				if l.Owner == o && !l.Other && !containsI(mems[i], l.Target) {
+					mems[i] = append(mems[i], l.Target)
+					sets[i][l.Target] = true
+				}
+			}
+			mems[i] = sorted(mems[i])
+		}
+	}
 	for _, op := range in.Ops {
+		useRefs := op.Refs != nil && (op.Op == "append" || op.Op == "replace") && !op.None
+		if useRefs {
+			anyRef := false
+			for oi, refs := range op.Refs {
+				for _, p := range refs {
+					if p >= 0 {
+						anyRef = true
+						if oi >= len(mems) || len(mems[oi]) == 0 {
+							useRefs = false
+						}
+					}
+				}
+			}
+			useRefs = useRefs && anyRef
+		}
 		any := false
 		for _, s := range sets {
 			any = any || len(s) > 0
 		}
 		vals := make([][]int64, len(op.Vals))
 		for i, v := range op.Vals {
-			for _, t := range v {
+			for j, t := range v {
+				if useRefs && i < len(op.Refs) && j < len(op.Refs[i]) && op.Refs[i][j] >= 0 {
+					vals[i] = append(vals[i], mems[i][op.Refs[i][j]%len(mems[i])])
+					continue
+				}
 				if t == 0 {
 					fresh--
 					t = fresh
@@ -1079,34 +1447,35 @@ func sigOther(in Input) string {
 			}
 			del = append(del, t)
 		}
-		if op.Op == "delete" && op.Alias && len(mem0) > 0 {
-			del = []int64{mem0[0]} // the argument is the record the first owner holds first
+		if op.Op == "delete" && op.Alias && len(mems[0]) > 0 {
+			del = []int64{mems[0][0]} // the argument is the record the first owner holds first
 		}
 		if op.None {
 			if op.Op == "replace" { // Replace() = Clear
 				for i := range sets {
 					sets[i] = map[int64]bool{}
+					mems[i] = nil
 				}
-				mem0 = nil
 			}
 			continue
 		}
-		// the ordered in-memory field of the first owner (what an alias Delete names)
-		switch op.Op {
-		case "append":
-			mem0 = append(mem0, vals[0]...)
-		case "replace":
-			mem0 = append([]int64{}, vals[0]...)
-		case "clear":
-			mem0 = nil
-		case "delete":
-			var kept []int64
-			for _, t := range mem0 {
-				if !containsI(del, t) {
-					kept = append(kept, t)
+		for i := range mems {
+			switch op.Op {
+			case "append":
+				mems[i] = append(append([]int64{}, mems[i]...), vals[i]...)
+			case "replace":
+				mems[i] = append([]int64{}, vals[i]...)
+			case "clear":
+				mems[i] = nil
+			case "delete":
+				var kept []int64
+				for _, t := range mems[i] {
+					if !containsI(del, t) {
+						kept = append(kept, t)
+					}
 				}
+				mems[i] = kept
 			}
-			mem0 = kept
 		}
 		if rel.Kind == "KM2M" && op.Op == "replace" && len(in.Owners) > 1 {
 			for i, s := range sets {
@@ -1216,6 +1585,77 @@ func targetedInputs() []Input {
 				}
 				out = append(out, in)
 			}
+		}
+	}
+	// arguments taken from the owner's OWN relation field, in reversed / rotated order, as element
+	// pointers and as sub-slices (multi-valued kinds; owners that hold three records each, appended or
+	// preloaded); and has-kind targets whose in-memory foreign key names somebody else (loaded from the
+	// database while linked to an outside owner, or the key written into the object)
+	for _, rn := range []string{"Many", "Notes", "Stickers", "CKids", "Cards", "Tags", "PTags", "Friends", "XTags", "CTags"} {
+		rel := rels[rn]
+		for n := 1; n <= 2; n++ {
+			for _, mode := range []string{"elem", "sub"} {
+				for _, pre := range []bool{false, true} {
+					in := Input{Rel: rn, Single: n == 1, Targets: []int64{11, 12, 13, 14, 15, 16, 17, 18}, Preload: pre}
+					var first, rot, rev, one [][]int64
+					var rrot, rrev, rone [][]int
+					for i := 0; i < n; i++ {
+						in.Owners = append(in.Owners, int64(1+i))
+						b := int64(11 + 3*i)
+						first = append(first, []int64{b, b + 1, b + 2})
+						rot, rrot = append(rot, []int64{b, b, b}), append(rrot, []int{1, 2, 0})
+						rev, rrev = append(rev, []int64{b, b}), append(rrev, []int{2, 0})
+						one, rone = append(one, []int64{b, 17 + int64(i)}), append(rone, []int{1, -1})
+						if pre {
+							for _, t := range first[i] {
+								in.Links = append(in.Links, Link{Owner: int64(1 + i), Target: t})
+							}
+						}
+					}
+					if !pre {
+						in.Ops = append(in.Ops, OpIn{Op: "append", Vals: first})
+					}
+					in.Ops = append(in.Ops,
+						OpIn{Op: "replace", Vals: rot, Refs: rrot, RefMode: mode},
+						OpIn{Op: "replace", Vals: rev, Refs: rrev, RefMode: mode},
+						OpIn{Op: "append", Vals: one, Refs: rone, RefMode: mode},
+						OpIn{Op: "replace", Vals: rev, Refs: rrev, RefMode: mode, Unscoped: true},
+					)
+					if rel.Kind == "KM2M" && n > 1 {
+						// (a slice Replace that drops a target another owner keeps is the known shape: stop before it)
+						in.Ops = in.Ops[:len(in.Ops)-1]
+					}
+					out = append(out, in)
+				}
+			}
+		}
+	}
+	for _, rn := range []string{"One", "Many", "Notes", "Badge", "OneV", "Stickers", "CKids", "Cards", "Pass"} {
+		rel := rels[rn]
+		single := rel.Kind == "KHasOne"
+		for n := 1; n <= 2; n++ {
+			in := Input{Rel: rn, Single: n == 1, Outside: []int64{7, 8}, Targets: []int64{11, 12, 13, 14, 15, 16},
+				Links: []Link{{Owner: 7, Target: 11}, {Owner: 7, Target: 12}, {Owner: 8, Target: 13}, {Owner: 8, Target: 14}}}
+			var a, b, c [][]int64
+			var fa, fb, fc [][]int64
+			for i := 0; i < n; i++ {
+				in.Owners = append(in.Owners, int64(1+i))
+				t := int64(11 + 2*i)
+				a, fa = append(a, []int64{t}), append(fa, []int64{-1}) // loaded while linked to an outside owner
+				b, fb = append(b, []int64{t + 1}), append(fb, []int64{8 - int64(i)})
+				if single {
+					c, fc = append(c, []int64{0}), append(fc, []int64{7})
+				} else {
+					c, fc = append(c, []int64{0, 15 + int64(i)}), append(fc, []int64{7, 99})
+				}
+			}
+			in.Ops = []OpIn{
+				{Op: "append", Vals: a, FKMem: fa},
+				{Op: "append", Vals: b, FKMem: fb},
+				{Op: "replace", Vals: c, FKMem: fc},
+				{Op: "replace", Vals: a, FKMem: fa, Unscoped: true},
+			}
+			out = append(out, in)
 		}
 	}
 	return out
